@@ -256,6 +256,16 @@ def run(index, tier="quick", seed=0) -> Result:
     _balls = ("circumsphere", "insphere", "circumcircle", "incircle", "minimal_bounding_sphere", "minimal_bounding_circle", "minimal_centered_bounding_circle", "maximal_centered_bounded_circle", "minimal_centered_bounding_sphere", "maximal_centered_bounded_sphere", "maximal_bounded_circle", "maximal_bounded_sphere")
     report_translation(res, sc, lambda func, path: any(p_.split(".")[-1] in _balls for p_ in path[:1]) or func.split(".")[-1] in _balls,
                        "ball properties")
+    # FRAME-4: the centre of a ball computed in the plane frame comes back to the world frame completely: the in-plane part through
+    # the rows of the rotation AND the distance of the plane from the origin (typing: cxa/npmodel.rot_frame)
+    from ..npmodel import PLANE_OFFSET_DROPPED
+    for (cn_, member_, built_, args_, kwargs_, e_) in sc.constructs:
+        if built_ == "Circle" and member_ in _balls and cn_ in ("Polygon", "ConvexPolygon", "ConvexSpheropolygon"):
+            cen_ = args_[1] if len(args_) > 1 else kwargs_.get("center")
+            if cen_ is not None and PLANE_OFFSET_DROPPED in cen_.deps:
+                res.bad("FRAME-4", f"{cn_}.{member_}:centre:plane-offset", e_.where(), f"{cn_}.{member_}: the centre is found from in-plane coordinates and taken back "
+                        "with the first two rows of the alignment rotation only: its component along the normal (the distance of the polygon's plane from "
+                        "the origin) is lost, so the circle lies in the parallel plane through the origin")
     # TR-2: a ball is built with a translation-invariant radius and a centre that moves with the shape
     from ..trans import tr_of
     for (cn_, member_, built_, args_, kwargs_, e_) in sc.constructs:
